@@ -228,6 +228,9 @@ pub fn run(ctx: &mut Ctx) {
                         let desc = json!({"replies": names, "can_fd": can_fd, "chunks": chunks.len(),
                             "library": match &run.result { Some(Ok(_)) => "connected".to_string(), Some(Err(e)) => format!("error: {e}"), None => "pending".into() },
                             "client_wrote": String::from_utf8_lossy(&run.written).to_string(), "trailing_sent": sent_msgs.len(), "trailing_received": got.len(), "stream_end": end, "fd_capability": cap});
+                        if g % 211 == 0 {
+                            ctx.sample(desc.clone());
+                        }
                         let first_is_proper_ok = names.first().map(|x| proper_ok(x)).unwrap_or(false);
                         if ok && !first_is_proper_ok {
                             ctx.finding(g, "succeeds-without-proper-ok", names.first().copied().unwrap_or("no-reply"), "-", desc.clone());
@@ -307,6 +310,9 @@ pub fn run(ctx: &mut Ctx) {
                 "library": match &run.result { Some(Ok(_)) => "connected".to_string(), Some(Err(e)) => format!("error: {e}"), None => "pending".into() },
                 "trailing_sent": sent_msgs.len(), "trailing_received": got.len(), "stream_end": end, "fd_capability": cap,
                 "recv_calls": run.wire.lock().recv_calls});
+            if j < 2 {
+                ctx.sample(desc.clone());
+            }
             if !matches!(run.result, Some(Ok(_))) {
                 ctx.finding(i, "refuses-proper-server", if can_fd { if agree { "OK>AGREE" } else { "OK>ERROR" } } else { "OK" }, "leftover", desc);
                 return;
@@ -326,7 +332,6 @@ pub fn run(ctx: &mut Ctx) {
     }
     if ctx.args.shard == 0 {
         ctx.count("exhaustive_cases_total", total);
-        ctx.sample(json!({"server_script_example": ["OK 0123456789abcdef0123456789abcdef", "AGREE_UNIX_FD", "<message bytes + fds>"], "templates": t.iter().map(|x| x.0).collect::<Vec<_>>()}));
     }
     let _ = OTHER_GUID;
 }
